@@ -289,7 +289,181 @@ class G:
         return "(= %s (and %s %s))" % (self.lit(pool), self.lit(pool), self.lit(pool))
 
 
-def gen(rng, logic, engine=None, big=None):
+def _hdr(engine, logic, decls):
+    return ENGINE_OPTS[engine] + ["(set-logic %s)" % logic] + decls
+
+
+def gen_sched(rng, logic, engine):
+    """One-machine scheduling with a horizon that is (almost) too short: pairwise disjunctions
+    x_i + d_i <= x_j  or  x_j + d_j <= x_i  — many theory conflicts; difference-logic shaped unless scaled."""
+    isint = is_int_logic(logic)
+    sort = "Int" if isint else "Real"
+    n = rng.randint(4, 6)
+    vs = ["x%d" % i for i in range(n)]
+    d = [rng.randint(1, 4) for _ in vs]
+    H = sum(d) - rng.randint(0, 3)
+    feats = {"sched"}
+    big = rng.random() < 0.25
+    off = rng.choice(BIG) if big else 0          # shift of the time origin: big constants
+    if big:
+        feats.add("bigconst")
+    z = "z"
+    decls = ["(declare-fun %s () %s)" % (v, sort) for v in vs + [z]]
+    body = []
+    dl = is_dl(logic)
+    for v, dv in zip(vs, d):
+        body.append("(assert (and (<= (- %s %s) %s) (<= (- %s %s) %s)))" % (z, v, num(-off), v, z, num(off + H - dv)))
+    pairs = [(i, j) for i in range(n) for j in range(i + 1, n)]
+    rng.shuffle(pairs)
+    incremental = engine == "incr" or rng.random() < 0.3
+    if engine == "itp":
+        incremental = False
+    for cnt, (i, j) in enumerate(pairs):
+        if rng.random() < 0.9:
+            if dl or rng.random() < 0.5:
+                strict = rng.random() < 0.3
+                if strict:
+                    feats.add("strict")
+                l1 = "(<= (- %s %s) %s)" % (vs[i], vs[j], num(-d[i]))
+                l2 = "(%s (- %s %s) %s)" % ("<" if strict else "<=", vs[j], vs[i], num(-d[j] + (1 if strict and isint else 0)))
+            else:
+                a = rng.choice([2, 3, 5] + ([2**32 + 1, 2**64 + 1] if big else []))
+                if a > 5:
+                    feats.add("bigcoef")
+                l1 = "(<= (+ (* %d %s) %d) (* %d %s))" % (a, vs[i], a * d[i], a, vs[j])
+                l2 = "(>= (- %s %s) %d)" % (vs[i], vs[j], d[j])
+            body.append("(assert (or %s %s))" % (l1, l2))
+        if incremental and rng.random() < 0.15 and cnt > 2:
+            body.append("(check-sat)")
+            if rng.random() < 0.5:
+                body.append("(push 1)")
+                body.append("(assert (<= (- %s %s) %s))" % (rng.choice(vs), z, num(off + rng.randint(0, 2))))
+                body.append("(check-sat)")
+                body.append("(pop 1)")
+                feats.add("pushpop")
+    body.append("(check-sat)")
+    return dict(text="\n".join(_hdr(engine, logic, decls) + body + ["(exit)"]) + "\n", logic=logic, engine=engine,
+                big="big" if big else None, features=sorted(feats), family="sched")
+
+
+def gen_grid(rng, logic, engine):
+    """Bounded box, many clauses of fresh small linear atoms: theory-tight, Boolean-loose."""
+    isint = is_int_logic(logic)
+    sort = "Int" if isint else "Real"
+    n = rng.randint(3, 5)
+    H = rng.randint(3, 9)
+    vs = ["x%d" % i for i in range(n)]
+    feats = {"grid"}
+    big = rng.random() < 0.3
+    decls = ["(declare-fun %s () %s)" % (v, sort) for v in vs]
+    body = []
+    for v in vs:
+        body.append("(assert (and (<= 0 %s) (<= %s %d)))" % (v, v, H))
+
+    def coef():
+        if big and rng.random() < 0.3:
+            feats.add("bigcoef")
+            return rng.choice(BIG) * rng.choice([1, -1])
+        return rng.choice([1, 1, 2, 3, -1, -1, -2, -3])
+
+    def cst():
+        if big and rng.random() < 0.3:
+            feats.add("bigconst")
+            return rng.choice(BIG) * rng.choice([1, -1]) + rng.randint(-3, 3)
+        return rng.randint(-H, 2 * H)
+    incremental = engine == "incr" or rng.random() < 0.3
+    if engine == "itp":
+        incremental = False
+    depth = 0
+    m = rng.randint(15, 35)
+    for cnt in range(m):
+        lits = []
+        for _ in range(rng.choice([2, 2, 3])):
+            k = rng.choice([1, 2, 2, 3])
+            ms = []
+            for v in rng.sample(vs, min(k, n)):
+                c = coef()
+                if not isint and rng.random() < 0.1:
+                    feats.add("fraccoef")
+                    ms.append("(* %s %s)" % (num(c, False, rng.choice([2, 3, 7])), v))
+                else:
+                    ms.append("(* %s %s)" % (num(c), v))
+            t = ms[0] if len(ms) == 1 else "(+ %s)" % " ".join(ms)
+            op = rng.choice(["<=", "<", ">=", ">", "=", "<=", ">="])
+            if op in ("<", ">"):
+                feats.add("strict")
+            if op == "=":
+                feats.add("eq")
+            lits.append("(%s %s %s)" % (op, t, num(cst())))
+        body.append("(assert (or %s))" % " ".join(lits))
+        if incremental and rng.random() < 0.12 and cnt > 5:
+            body.append("(check-sat)")
+            if depth and rng.random() < 0.5:
+                body.append("(pop 1)")
+                depth -= 1
+            else:
+                body.append("(push 1)")
+                depth += 1
+            feats.add("pushpop")
+    body.append("(check-sat)")
+    return dict(text="\n".join(_hdr(engine, logic, decls) + body + ["(exit)"]) + "\n", logic=logic, engine=engine,
+                big="big" if big else None, features=sorted(feats), family="grid")
+
+
+def gen_parity(rng, logic, engine):
+    """Integer problems whose LP relaxation is feasible but has few/no integer points: branch-and-bound splits and cuts."""
+    n = rng.randint(2, 4)
+    vs = ["x%d" % i for i in range(n)]
+    decls = ["(declare-fun %s () Int)" % v for v in vs]
+    body = []
+    H = rng.randint(3, 12)
+    for v in vs:
+        if rng.random() < 0.8:
+            body.append("(assert (and (<= %d %s) (<= %s %d)))" % (-H, v, v, H))
+    for _ in range(rng.randint(1, 3)):
+        k = rng.choice([2, 3, 4, 6])
+        ms = ["(* %d %s)" % (k * rng.choice([1, 2, 3, -1, -2]), v) for v in rng.sample(vs, min(n, rng.randint(2, 3)))]
+        r = rng.randint(1, k - 1) + k * rng.randint(-2, 2)
+        if rng.random() < 0.5:
+            body.append("(assert (= (+ %s) %d))" % (" ".join(ms), r))
+        else:
+            body.append("(assert (and (<= %d (+ %s)) (<= (+ %s) %d)))" % (r, " ".join(ms), " ".join(ms), r + rng.randint(0, k - 2)))
+    for _ in range(rng.randint(2, 8)):
+        ms = ["(* %d %s)" % (rng.choice([1, 2, 3, 5, -1, -2, -3, -7]), v) for v in rng.sample(vs, min(n, rng.randint(1, 3)))]
+        t = ms[0] if len(ms) == 1 else "(+ %s)" % " ".join(ms)
+        l1 = "(%s %s %d)" % (rng.choice(["<=", ">=", "<", ">"]), t, rng.randint(-H, H))
+        ms = ["(* %d %s)" % (rng.choice([1, 2, 3, 5, -1, -2, -3, -7]), v) for v in rng.sample(vs, min(n, rng.randint(1, 3)))]
+        t = ms[0] if len(ms) == 1 else "(+ %s)" % " ".join(ms)
+        l2 = "(%s %s %d)" % (rng.choice(["<=", ">=", "<", ">"]), t, rng.randint(-H, H))
+        body.append("(assert (or %s %s))" % (l1, l2))
+    body.append("(check-sat)")
+    return dict(text="\n".join(_hdr(engine, logic, decls) + body + ["(exit)"]) + "\n", logic=logic, engine=engine,
+                big=None, features=["parity"], family="parity")
+
+
+def gen(rng, logic, engine=None, big=None, family=None):
+    """big in {None,'big','many'}; family in {None,'random','sched','grid','parity'}"""
+    engine = engine or rng.choice(ENGINES)
+    if family is None:
+        x = rng.random()
+        if logic in ("QF_LRA", "QF_LIA"):
+            family = "sched" if x < 0.3 else ("grid" if x < 0.6 else ("parity" if (x < 0.75 and logic == "QF_LIA") else "random"))
+        elif logic in ("QF_RDL", "QF_IDL"):
+            family = "sched" if x < 0.6 else "random"
+        else:
+            family = "random"
+    if family == "sched":
+        return gen_sched(rng, logic, engine)
+    if family == "grid":
+        return gen_grid(rng, logic, engine)
+    if family == "parity":
+        return gen_parity(rng, logic, engine)
+    r = gen_random(rng, logic, engine, big)
+    r["family"] = "random"
+    return r
+
+
+def gen_random(rng, logic, engine=None, big=None):
     """big in {None,'big','many'}"""
     engine = engine or rng.choice(ENGINES)
     if big is None:
